@@ -87,6 +87,13 @@ class ConstValue(ConstBase):
             self.value
         ) == _distinguish_zeros(other.value)
 
+    def __hash__(self) -> int:
+        try:
+            return hash(self.value)
+        except TypeError:
+            # Comptime lists (`frozenarray` constants) are not hashable
+            return hash(repr(self.value))
+
     def cast(self) -> "Const":
         """Casts an implementor of `ConstBase` into a `Const`."""
         return self
@@ -100,7 +107,7 @@ def _distinguish_zeros(v: Any) -> Any:
     """Pairs every float in a constant value with its sign bit."""
     if isinstance(v, float):
         return (v, math.copysign(1.0, v))
-    if isinstance(v, tuple):
+    if isinstance(v, tuple | list):
         return tuple(_distinguish_zeros(x) for x in v)
     return v
 
